@@ -309,15 +309,10 @@ func canonVal(v V) string {
 	return v.Enc()
 }
 
-// canonical rendering compared with the model's answer. opaque: an operand is
-// an array / object / instance, whose display string the model does not compute
-// → strings are compared by kind only.
-func canonOut(o Out, opaque bool) string {
+// canonical rendering compared with the model's answer
+func canonOut(o Out, _ bool) string {
 	switch o.Kind {
 	case "val":
-		if opaque && o.Val.K == "s" {
-			return "v s:*"
-		}
 		return "v " + canonVal(o.Val)
 	case "err":
 		k := o.Msg
@@ -329,11 +324,4 @@ func canonOut(o Out, opaque bool) string {
 		return "err:" + k
 	}
 	return o.Kind
-}
-
-func canonModel(s string, opaque bool) string {
-	if opaque && strings.HasPrefix(s, "v s:") {
-		return "v s:*"
-	}
-	return s
 }
